@@ -18,10 +18,10 @@ pub static PROP: Prop = Prop {
            and twin B with 8 KiB. Non-trivial = twin B answered; distinct = (generator class, layout fingerprint, reply kind).",
     assumptions: &[
         "the policy decision is read off the large-buffer twin: if it answers, policy decided to answer",
-        "violation signatures name version, plain/NTS and the structural cause the monitor can see (field shorter than the RFC 7822 minimum, nonce shorter than 16, other)",
+        "violation signatures name the structural cause the monitor can see in the request (field below the RFC 7822 minimum, last field + MAC tail below 28, NTS nonce shorter than 16, NTPv5 NTS unique id below 16, other); '-valid-grammar' is added when the request came unmodified from the valid-request grammar",
     ],
     profiles: Profiles::Ship,
-    cases: |t| t.pick(30_000, 800_000),
+    cases: |t| t.pick(30_000, 600_000),
     budget_s: |t| t.pick(40, 400),
     run,
     min_nontrivial: 500,
@@ -138,12 +138,11 @@ fn run(c: &mut Case) {
         };
         match &a.reply {
             None => {
-                let k = format!("{:?}", kind).to_lowercase();
                 c.violation(
-                    format!("insufficient{}/v{}/{nts}/{}/{}", if req.truth.valid { "-valid-grammar" } else { "" }, req.truth.version, cause(&req.bytes), k.trim_start_matches("some(").trim_end_matches(')')),
+                    format!("insufficient{}/{}", if req.truth.valid { "-valid-grammar" } else { "" }, cause(&req.bytes)),
                     format!(
-                        "the server answers this {}-byte request with {} bytes when given room, but drops it with a request-sized buffer (registered {:?})",
-                        req.bytes.len(), rb.len(), a.regs.first().map(|r| (r.reason, r.response))
+                        "the server answers this {}-byte v{} {nts} request with a {}-byte {:?} when given room, but drops it with a request-sized buffer (registered {:?})",
+                        req.bytes.len(), req.truth.version, rb.len(), kind, a.regs.first().map(|r| (r.reason, r.response))
                     ),
                     detail(),
                 );
